@@ -477,4 +477,224 @@ theorem C07_iter_compose (cfg : Cfg) (pre : List TEvent) (js : List JOp)
     rw [houts, hfinal] at h1
     exact ⟨its, j, h1, h2.trans hps, by rw [h3, hpl]⟩
 
+-- (v, continued) freshness order of what the iteration hands out ------------------------------------------
+
+/-- `m2` is further ahead than `m1` on the circle of Observe values, counted from `b` -/
+def Ahead (b : Nat) (m1 m2 : Msg) : Prop :=
+  ∃ v1 v2, m1.obs = some v1 ∧ m2.obs = some v2 ∧ soff b v1 < soff b v2
+
+theorem callbacks_increasing (cfg : Cfg) (b T : Nat) (es : List TEvent) (v0 t0 : Nat)
+    (hv0 : v0 < 2 ^ 24) (ho0 : soff b v0 < 2 ^ 23) (ht0 : T ≤ t0)
+    (hall : ∀ e ∈ es, ∃ m v, e.ev = .message m false ∧ m.obs = some v ∧ v < 2 ^ 24 ∧
+      soff b v < 2 ^ 23 ∧ T ≤ e.time ∧ e.time ≤ T + cfg.reset) :
+    (∀ m ∈ callbacksOf (deliveries cfg (.observing v0 t0) es),
+      ∃ v, m.obs = some v ∧ soff b v0 < soff b v) ∧
+    (callbacksOf (deliveries cfg (.observing v0 t0) es)).Pairwise (Ahead b) ∧
+    ∃ v1 t1, finalState cfg (.observing v0 t0) es = .observing v1 t1 ∧
+      match (callbacksOf (deliveries cfg (.observing v0 t0) es)).getLast? with
+      | none => v1 = v0
+      | some m => m.obs = some v1 := by
+  induction es generalizing v0 t0 with
+  | nil => exact ⟨by simp [deliveries_nil, callbacksOf], by simp [deliveries_nil, callbacksOf],
+      v0, t0, rfl, by simp [deliveries_nil, callbacksOf]⟩
+  | cons e es ih =>
+    obtain ⟨m, v, hev, hobs, hv, ho, htT, ht⟩ := hall e List.mem_cons_self
+    have hrest : ∀ e' ∈ es, ∃ m v, e'.ev = .message m false ∧ m.obs = some v ∧ v < 2 ^ 24 ∧
+        soff b v < 2 ^ 23 ∧ T ≤ e'.time ∧ e'.time ≤ T + cfg.reset :=
+      fun e' he' => hall e' (List.mem_cons_of_mem _ he')
+    obtain ⟨t, ev⟩ := e
+    simp only at hev ht htT
+    subst hev
+    rw [deliveries_cons, finalState_cons, step_notification cfg v0 t0 t m v false hobs,
+      callbacksOf_append]
+    have htime : decide (t > t0 + cfg.reset) = false := by simp; omega
+    have hfr : fresher cfg.reset v0 t0 v t = true ↔ soff b v0 < soff b v := by
+      rw [fresher_eq, htime, Bool.or_false]
+      exact serialFresher_soff b v0 v hv0 hv ho0 ho
+    by_cases hf : fresher cfg.reset v0 t0 v t = true
+    · have hlt := hfr.mp hf
+      obtain ⟨h1, h2, v1, t1, h3, h4⟩ := ih v t hv ho (by omega) hrest
+      simp only [hf, ↓reduceIte, Bool.false_eq_true, List.append_nil]
+      have hcb : callbacksOf [Delivery.callback m] = [m] := rfl
+      rw [hcb]
+      refine ⟨?_, ?_, v1, t1, h3, ?_⟩
+      · intro m' hm'
+        rcases List.mem_append.mp hm' with hm' | hm'
+        · simp only [List.mem_singleton] at hm'; subst hm'; exact ⟨v, hobs, hlt⟩
+        · obtain ⟨v', hv', hlt'⟩ := h1 m' hm'
+          exact ⟨v', hv', by omega⟩
+      · rw [List.singleton_append, List.pairwise_cons]
+        refine ⟨?_, h2⟩
+        intro m' hm'
+        obtain ⟨v', hv', hlt'⟩ := h1 m' hm'
+        exact ⟨v, v', hobs, hv', hlt'⟩
+      · rw [List.getLast?_append]
+        cases hl : (callbacksOf (deliveries cfg (.observing v t) es)).getLast? with
+        | none => rw [hl] at h4; simpa [h4] using hobs
+        | some m' => rw [hl] at h4; simpa using h4
+    · have hf' : fresher cfg.reset v0 t0 v t = false := by
+        cases h' : fresher cfg.reset v0 t0 v t
+        · rfl
+        · exact absurd h' hf
+      simp only [hf', Bool.false_eq_true, ↓reduceIte, List.append_nil]
+      have hcb : callbacksOf ([] : List Delivery) = [] := rfl
+      rw [hcb, List.nil_append]
+      exact ih v0 t0 hv0 ho0 ht0 hrest
+
+/-- **C07 (what the iteration hands out is freshness-ordered and contains the freshest).** For a
+history of notifications (first response included; any order, any duplicates) whose 24-bit Observe
+values lie within one half of the number circle counted from some base `b` and which arrive within
+the 128 s window — the setting of `C07_freshest_delivered` — iterated over from any point `pre` on
+and under any consumer schedule: the items handed out are strictly increasing in freshness
+(`Ahead b`); and for a consumer that keeps iterating, the last item it obtains is the freshest
+notification that arrived — unless no later notification was fresher than the first response, which
+the application has from the response future. -/
+theorem C07_iter_compose_freshest (cfg : Cfg) (hobs : cfg.observe = true) (b T : Nat)
+    (pre : List TEvent) (js : List JOp) (hjs : ∀ j ∈ js, j.isCons = true)
+    (e0 : TEvent) (es : List TEvent) (hes : pre ++ events js = e0 :: es)
+    (hall : ∀ e ∈ e0 :: es, ∃ m v, e.ev = .message m false ∧ m.obs = some v ∧ v < 2 ^ 24 ∧
+      soff b v < 2 ^ 23 ∧ T ≤ e.time ∧ e.time ≤ T + cfg.reset) (n : Nat) (hn : 2 ≤ n) :
+    let s0 : St Msg := final init (openOps (deliveries cfg .awaitingFirst pre))
+    let r := jrun cfg (finalState cfg .awaitingFirst pre) s0 js
+    let O := r.2 ++ (pulls n r.1.2).2
+    (items O).Pairwise (Ahead b) ∧
+    ∃ v1, (∀ m ∈ arrived (e0 :: es), ∀ v, m.obs = some v → soff b v ≤ soff b v1) ∧
+      ((∃ m0 last, e0.ev = .message m0 last ∧ m0.obs = some v1 ∧ items O = []) ∨
+       ∃ m, (items O).getLast? = some m ∧ m.obs = some v1) := by
+  intro s0 r O
+  obtain ⟨m0, v0, hev, hobs0, hv0, ho0, hT0, _⟩ := hall e0 List.mem_cons_self
+  have hrest : ∀ e ∈ es, ∃ m v, e.ev = .message m false ∧ m.obs = some v ∧ v < 2 ^ 24 ∧
+      soff b v < 2 ^ 23 ∧ T ≤ e.time ∧ e.time ≤ T + cfg.reset :=
+    fun e he => hall e (List.mem_cons_of_mem _ he)
+  obtain ⟨t, ev⟩ := e0
+  simp only at hev hT0
+  subst hev
+  -- the runner over the whole history
+  have hds : deliveries cfg .awaitingFirst (⟨t, .message m0 false⟩ :: es) =
+      .response m0 :: deliveries cfg (.observing v0 t) es := by
+    rw [deliveries_cons]; simp [Observe.step, stepFirst, hobs, hobs0]
+  have hcbs : callbacksOf (deliveries cfg .awaitingFirst (⟨t, .message m0 false⟩ :: es)) =
+      callbacksOf (deliveries cfg (.observing v0 t) es) := by
+    rw [hds]; simp [callbacksOf, Delivery.cb?, List.filterMap_cons]
+  have herr : errbacks (deliveries cfg .awaitingFirst (⟨t, .message m0 false⟩ :: es)) = [] := by
+    have := C07_ends_exactly_once cfg hobs (⟨t, .message m0 false⟩ :: es) (by
+      intro e he
+      obtain ⟨m, v, h, _⟩ := hall e he
+      rw [h]; rfl)
+    rw [this]
+    have hterm : ∀ e ∈ (⟨t, .message m0 false⟩ :: es : List TEvent),
+        Event.terminating e.ev = false := by
+      intro e he
+      obtain ⟨m, v, h, hv, _⟩ := hall e he
+      rw [h]; simp [Event.terminating, hv]
+    have h0 := hterm _ List.mem_cons_self
+    simp only [List.map_cons, expectedEnd, h0, Bool.false_eq_true, ↓reduceIte]
+    have : (es.map (·.ev)).find? Event.terminating = none := by
+      rw [List.find?_eq_none]
+      intro ev hev
+      obtain ⟨e, he, rfl⟩ := List.mem_map.mp hev
+      simpa using hterm e (List.mem_cons_of_mem _ he)
+    rw [this]
+  obtain ⟨h1, h2, v1, t1, h3, h4⟩ := callbacks_increasing cfg b T es v0 t hv0 ho0 hT0 hrest
+  obtain ⟨v1', t1', h3', _, _, hmax⟩ := freshest_observing cfg b T es v0 t hv0 ho0 hT0 hrest
+  rw [h3] at h3'
+  simp only [ObsState.observing.injEq] at h3'
+  obtain ⟨rfl, rfl⟩ := h3'
+  obtain ⟨_, _, hrun, _⟩ := C07_iter_compose cfg pre js hjs
+  rw [hes] at hrun
+  obtain ⟨hO1, hO2, hO3⟩ := hrun herr n hn
+  rw [hcbs] at hO2
+  rw [lastCallback_eq, hcbs] at hO3
+  refine ⟨h2.sublist hO2, v1, ?_, ?_⟩
+  · intro m hm v hv
+    have harr : arrived (⟨t, .message m0 false⟩ :: es) = m0 :: arrived es := by
+      simp [arrived, Event.msg?]
+    rw [harr] at hm
+    rcases List.mem_cons.mp hm with h | h
+    · subst h
+      rw [hobs0] at hv; cases hv
+      -- the first response is not ahead of the final reference
+      cases hl : (callbacksOf (deliveries cfg (.observing v0 t) es)).getLast? with
+      | none => rw [hl] at h4; rw [h4]; exact Nat.le_refl _
+      | some m' =>
+        rw [hl] at h4
+        obtain ⟨v', hv', hlt⟩ := h1 m' (List.mem_of_getLast? hl)
+        rw [h4] at hv'; cases hv'
+        omega
+    · exact hmax m h v hv
+  · cases hl : (callbacksOf (deliveries cfg (.observing v0 t) es)).getLast? with
+    | none =>
+      left
+      rw [hl] at h4 hO3
+      exact ⟨m0, false, rfl, by rw [h4]; exact hobs0, List.getLast?_eq_none_iff.mp hO3⟩
+    | some m' =>
+      right
+      rw [hl] at h4 hO3
+      exact ⟨m', hO3, h4⟩
+
+-- non-vacuity and sanity ------------------------------------------------------------------------------
+
+/-- the consumer waits, gets item 1, is busy while 2 and 3 arrive (3 replaces 2) and while the final
+pair `push 4; pushErr ObservationCancelled` arrives (4 replaces 3, the error replaces nothing),
+then keeps iterating: 1, 4, stop -/
+def exOps : List (Op Nat) :=
+  [.next, .push 1, .wake, .push 2, .push 3, .push 4, .pushErr .observationCancelled, .next, .next, .next]
+
+example : outs init exOps = [.item 1, .item 4, .stop, .stop] := by decide
+example : wfOps exOps = true := by decide
+example : firstErr exOps = some .observationCancelled := by decide
+example : pushed exOps = [1, 2, 3, 4] := by decide
+/-- the slot after `push 4; pushErr`: the item is still there, the error is kept aside -/
+example : (final init (exOps.take 7)).get (final init (exOps.take 7)).slot = .result 4 ∧
+    (final init (exOps.take 7)).deferred = some .observationCancelled := by decide
+/-- the reported defect: item then error while the consumer is not waiting -/
+example : outs init ([.push 7, .pushErr .observationCancelled, .next, .next] : List (Op Nat)) =
+    [.item 7, .stop] := by decide
+/-- a network error is raised, after the latest item -/
+example : outs init ([.push 7, .pushErr (.transport 2), .next, .next] : List (Op Nat)) =
+    [.item 7, .raise 2] := by decide
+example : outs init ([.pushErr .notObservable, .next] : List (Op Nat)) = [.stop] := by decide
+/-- wake-up due when the error comes: the suspended consumer still gets the item first -/
+example : outs init ([.next, .push 1, .pushErr .observationCancelled, .wake, .next] : List (Op Nat)) =
+    [.item 1, .stop] := by decide
+/-- consumer suspended on an older future while two newer items and the error arrive -/
+example : outs init ([.next, .push 1, .push 2, .push 3, .pushErr (.transport 0), .wake, .next, .next] :
+    List (Op Nat)) = [.item 1, .item 3, .raise 0] := by decide
+/-- the consumer task is cancelled while suspended (the future is cancelled: asking again raises
+`CancelledError` until something is pushed) and while a wake-up is due (the item stays) -/
+example : outs init ([.next, .cancel, .next, .push 5, .next] : List (Op Nat)) =
+    [.cancelled, .cancelled, .item 5] := by decide
+example : outs init ([.next, .push 5, .cancel, .next] : List (Op Nat)) = [.cancelled, .item 5] := by
+  decide
+/-- three more `__anext__` are needed in the worst case -/
+example : (pulls 3 (final init ([.next, .push 1, .push 2, .pushErr .observationCancelled] :
+    List (Op Nat)))).2 = [.item 1, .item 2, .stop] := by decide
+
+/-- `__aiter__` on an observation that has already ended (third fixed defect): the last response,
+then the end -/
+example : outs init (openOps [.response ⟨69, some 5, 0⟩, .callback ⟨69, some 6, 1⟩,
+    .callback ⟨132, none, 2⟩, .errback .observationCancelled] ++ [.next, .next]) =
+    [.item ⟨132, none, 2⟩, .stop] := by decide
+
+/-- runner and iterator: first response, a notification the consumer fetches, two more while it is
+busy (one stale), the 4.04 — handed out: 6, then the 4.04, then stop -/
+def exJops : List JOp :=
+  [.pipe (exN 0 5 0), .cons .next, .pipe (exN 1 6 1), .cons .wake, .pipe (exN 2 7 2), .pipe (exN 3 6 3),
+   .pipe ⟨4, .message ⟨132, none, 4⟩ true⟩, .cons .next, .cons .next, .pipe (exN 5 9 5), .cons .next]
+
+example : (jrun exCfg .awaitingFirst init exJops).2 =
+    [.item ⟨69, some 6, 1⟩, .item ⟨132, none, 4⟩, .stop, .stop] := by decide
+example : ∀ j ∈ exJops, j.isCons = true := by decide
+example : errbacks (deliveries exCfg .awaitingFirst (events exJops)) = [.observationCancelled] := by
+  decide
+example : lastCallback (deliveries exCfg .awaitingFirst (events exJops)) = some ⟨132, none, 4⟩ := by
+  decide
+
+/-- the hypotheses of `C07_iter_compose_freshest` are met by the wrap-around history `exWrap` of
+`Properties/C07.lean` with a lazy consumer -/
+def exWrapJops : List JOp := exWrap.map .pipe ++ [.cons .next]
+example : [] ++ events exWrapJops = exN 10 (2 ^ 24 - 2) 0 :: exWrap.tail := by decide
+example : ∀ j ∈ exWrapJops, j.isCons = true := by decide
+example : (jrun exCfg .awaitingFirst init exWrapJops).2 = [.item ⟨69, some 1, 1⟩] := by decide
+
 end Aiocoap.Observe.Iter
